@@ -178,7 +178,7 @@ def gen_model(r):
     for i in reversed(range(LEVELS)):
         msig = r.choice(sigs)
         isig = r.choice([s for s in sigs if len(s) <= 2])
-        ms = [{"name": SHARED, "params": msig, "ret": r.choice(["float", "int"])},
+        ms = [{"name": SHARED, "params": msig, "ret": r.choice(["float", "int", "float", None, "Any"])},
               {"name": "val", "params": [], "ret": "float"}]
         items_out = "items"
         if i + 1 < LEVELS:
@@ -190,10 +190,20 @@ def gen_model(r):
                 cbs["items_cb%d" % i] = {"md": None, "rw": ("rename", "items_v%d" % i)}
                 items_out = "items_v%d" % i
             ms.append(im)
+        if i + 1 < LEVELS:
+            # a user collection class: an Iterable subclass that declares, with its own signatures, methods that the
+            # library's collection classes also have (Count, First) - its own declaration is the one that binds
+            ms.append({"name": "jc", "params": [], "ret": "JC[L%d]" % (i + 1)})
         classes.append({"name": "L%d" % i, "methods": ms})
         info[i] = {"m": msig, "items": isig, "items_out": items_out}
+    jc_sigs = {"Count": r.choice([[("min_pt", None)], [("min_pt", None), ("eta", "2.5")], [("a", None), ("b", None)]]),
+               "First": r.choice([[("n", None)], [("n", "1")], [("n", None), ("strict", "True")]])}
+    classes.append({"name": "JC", "base": "Iterable[T]",
+                    "methods": [{"name": "Count", "params": jc_sigs["Count"], "ret": "int"},
+                                {"name": "First", "params": jc_sigs["First"], "ret": "T"}]})
+    info["jc"] = jc_sigs
     fsig = r.choice([s for s in sigs if len(s) >= 1])
-    desc = {"classes": classes, "functions": [{"name": "fn", "params": fsig, "ret": "float"}], "callbacks": cbs}
+    desc = {"typevars": ["T"], "classes": classes, "functions": [{"name": "fn", "params": fsig, "ret": "float"}], "callbacks": cbs}
     info["fn"] = fsig
     return desc, info
 
@@ -251,13 +261,23 @@ class QueryGen:
         cls = self.model.ns["L%d" % level]
         choices = ["m", "val", "fn", "tuple", "binop"]
         if level + 1 < LEVELS:
-            choices += ["nest", "nest", "nest", "dictnest", "tupnest", "where", "where", "wherecount", "many", "count"]
+            choices += ["nest", "nest", "nest", "dictnest", "tupnest", "where", "where", "wherecount", "many", "count", "jc", "jc"]
         k = r.choice(choices)
         if k == "m":
             return self.typed_call(cls.m, self.info[level]["m"], A(N(v), SHARED), A(N(v), SHARED), v, True)
         if k == "val":
             e = call(A(N(v), "val"), [])
             return e, gen.clone(e)
+        if k == "jc":
+            recv = call(A(N(v), "jc"), [])
+            name = r.choice(["Count", "Count", "First"])
+            JC = self.model.ns["JC"]
+            w, x = self.typed_call(getattr(JC, name), self.info["jc"][name], A(recv, name), A(gen.clone(recv), name), v, True)
+            if name == "First" and r.random() < 0.5 and not self.must_refuse:
+                # the element it returns is typed: its methods are normalised too
+                cls2 = self.model.ns["L%d" % (level + 1)]
+                return self.typed_call(cls2.m, self.info[level + 1]["m"], A(w, SHARED), A(x, SHARED), v, True)
+            return w, x
         if k == "fn":
             return self.typed_call(self.model.ns["fn"], self.info["fn"], N("fn"), N("fn"), v, False)
         if k == "tuple":
@@ -357,6 +377,7 @@ CORPUS = [  # witnesses of F09, F10, F20 over the hand-written model
     ("Event", "lambda e: e.Jets().Select(lambda e: e.pt())", "lambda e: e.Jets('default', True).Select(lambda e: e.pt(1.0, 'GeV', 7))"),
     ("Event", "lambda e: myf(c=5, a=e.met())", "lambda e: myf(e.met(), 10.0, 5)"),
     ("Event", "lambda e: g2(1)", None),
+    ("Event", "lambda e: e.Jets().Select(lambda j: j.noann())", "lambda e: e.Jets('default', True).Select(lambda j: j.noann(1))"),
     ("Event", "lambda e: e.Jets().Where(filter=lambda j: j.pt(unit='MeV') > 5)",
      "lambda e: e.Jets('default', True).Where(lambda j: j.pt(1.0, 'MeV', 7) > 5)"),
     ("Event", "lambda e: e.Jets().Where(filter=lambda j: j.two(1) > 5)", None),
